@@ -753,11 +753,12 @@ func (s *clientSocket) registerAckHandler(f any, timeout time.Duration) (id uint
 	id = s.nextAckID()
 	s.debug.Log("Registering ack with ID", id)
 	if timeout == 0 {
-		s.acksMu.Lock()
+		// An invalid function is refused by panicking: not with the mutex held.
 		h, err := newAckHandler(f, false)
 		if err != nil {
 			panic(err)
 		}
+		s.acksMu.Lock()
 		s.acks[id] = h
 		s.acksMu.Unlock()
 		return
